@@ -127,17 +127,22 @@ MC_WEAK = [
 ]
 FRAME_FIGURES = ["heap_eq('Statement._n_occurences')", "heap_eq('Statement._st_type')", "heap_eq('Statement._st_property')"]
 
+SLOT_FREE = ("statement._serializer_object is not None and implies(some(statement._st_type) == 'BNode', self._bnode_constraint is None)"
+             " and implies(some(statement._st_type) == 'IRI', self._iri_constraint is None)")
+SHAPE_MEMBERS_ST = "forall(Int, lambda j: implies(0 <= j and j < len(%s), has_class(%s[j], 'Statement')))" % (SHL, SHL)
 contract(MC + ".add_constraint", params={"statement": Statement},
-    requires=MC_INV + ["has_class(statement, 'Statement')", "statement._serializer_object is not None",
-                       # one statement per (property, type) after the first grouping stage: a kind slot is filled at most once
-                       "implies(some(statement._st_type) == 'BNode', self._bnode_constraint is None)",
-                       "implies(some(statement._st_type) == 'IRI', self._iri_constraint is None)"],
-    ensures=MC_INV + ["is_append(%s, old(%s), statement)" % (CS, CS),
-                      "implies(some(statement._st_type) == 'BNode', self._bnode_constraint == statement)",
-                      "implies(some(statement._st_type) == 'IRI', self._iri_constraint == statement)",
-                      "implies(some(statement._st_type) != 'IRI' and some(statement._st_type) != 'BNode', self._shape_constraints is not None and %s)" % IN(SHL, "statement")],
+    requires=["has_class(statement, 'Statement')"],
+    ensures=["is_append(%s, old(%s), statement)" % (CS, CS),
+             # stage 2 (node-kind merge): one statement per (property, kind) arrives, a kind slot is filled at most once -> the
+             # representation invariant is kept; stage 1 (same key, several cardinalities) uses the group as a plain list
+             "implies(old(%s and %s), %s)" % (" and ".join("(%s)" % x for x in MC_INV), SLOT_FREE, " and ".join("(%s)" % x for x in MC_INV)),
+             "implies(old(self._shape_constraints is not None), self._shape_constraints is not None)",
+             "implies(old(self._shape_constraints is not None and %s), %s)" % (SHAPE_MEMBERS_ST, SHAPE_MEMBERS_ST),
+             "implies(some(statement._st_type) == 'BNode', self._bnode_constraint == statement)",
+             "implies(some(statement._st_type) == 'IRI', self._iri_constraint == statement)",
+             "implies(some(statement._st_type) != 'IRI' and some(statement._st_type) != 'BNode', self._shape_constraints is not None and %s)" % IN(SHL, "statement")],
     raises=[], modifies=["MC._constraints[self]", "MC._bnode_constraint[self]", "MC._iri_constraint[self]", "MC._shape_constraints[self]"],
-    props=["C04", "C02"], note="every member ends in exactly one slot (bnode / iri / shape list)")
+    props=["C04", "C02"], note="the member is appended; with a free kind slot every member ends in exactly one slot (bnode / iri / shape list)")
 contract(MC + "._promote_to_dominant", params={"statement": Statement}, requires=[IN(CS, "statement")],
     ensures=["self._dominant_constraint == statement", "len(%s) == len(old(%s)) - 1" % (CS, CS)], raises=[],
     modifies=["MC._dominant_constraint[self]", "MC._constraints[self]"], props=["C04"])
